@@ -37,6 +37,137 @@ def _math_range(fn, iv, at, e):
     return iv.range_at(at, e0)
 
 
+def _isb(w):
+    return 1 <= w <= 5
+
+
+def _wdadd(w, k):
+    return (w - 1 + k) % 7 + 1
+
+
+def _steps(dow, b):
+    """calendar days from a day falling on `dow` to the b-th Monday-Friday day strictly after (before, b < 0) it"""
+    d = n = 0
+    step = 1 if b > 0 else -1
+    while n < abs(b):
+        d += step
+        if _isb(_wdadd(dow, d)):
+            n += 1
+    return d
+
+
+def _count_target_closed(dur, wd):
+    """Monday-Friday days in the half-open interval between the two days, closed at the target (the day that falls on `wd`):
+    (start, target] for a positive distance, [target, start) for a negative one -- the count that inverts the addition"""
+    if dur >= 0:
+        return sum(1 for i in range(dur) if _isb(_wdadd(wd, -i)))
+    return -sum(1 for i in range(-dur) if _isb(_wdadd(wd, i)))
+
+
+def _count_mirrored(dur, wd):
+    """the mirrored convention for negative distances: (target, start]"""
+    if dur >= 0:
+        return _count_target_closed(dur, wd)
+    return -sum(1 for i in range(1, -dur + 1) if _isb(_wdadd(wd, i)))
+
+
+def check_periodic(P, R, tu):
+    """RF2-period: the two closed forms the property is about -- business days to calendar days (__get_d_equiv) and calendar days
+    to business days (__get_nbdays / __get_nwedays) -- split their count into a quotient and a remainder by the week (5 resp. 7).
+    They are decoded for ALL counts at once: the remainder and the weekday range over their finite domains and are folded
+    concretely, the quotient is kept as a symbol q on the rays q >= 1 and q <= -1 (affine domain c + k*q of fold.py; every
+    division, remainder and comparison met on the way is either exact or decided uniformly for the whole ray, otherwise the form is
+    reported as not decodable), counts with quotient 0 are folded directly.  The decoded form must be definition(remainder) +
+    7q (resp. 5q)."""
+    import fold
+    from fold import Aff
+    from core import NotConst
+    rule = "RF2-period"
+    fd, fb, fw = tu.func("__get_d_equiv"), tu.func("__get_nbdays"), tu.func("__get_nwedays")
+    if fd is None or fb is None or fw is None:
+        raise AnalysisBroken("%s: closed forms vanished" % rule)
+    # the definition itself is periodic (a check of the oracle, not of the code)
+    assert all(_steps(w, b + 5) == _steps(w, b) + 7 for w in range(1, 8) for b in range(1, 12))
+    assert all(_steps(w, b - 5) == _steps(w, b) - 7 for w in range(1, 8) for b in range(-11, 0))
+    n = 0
+    bad = []
+    try:
+        for dow in range(1, 8):
+            for b in list(range(-4, 0)) + list(range(1, 5)) + ([0] if _isb(dow) else []):
+                got = fold.Folder(fd).run([dow, b])
+                n += 1
+                if got != _steps(dow, b):
+                    bad.append(("weekday %d, %+d business days" % (dow, b), got, _steps(dow, b)))
+            for sg in (1, -1):
+                for r in (range(0, 5) if sg > 0 else range(-4, 1)):
+                    got = fold.Folder(fd).run([dow, Aff(r, 5, sg)])
+                    n += 1
+                    exp = _steps(dow, r + 5 * sg) - 7 * sg
+                    if not isinstance(got, Aff) or got.k != 7 or got.c != exp:
+                        bad.append(("weekday %d, 5q%+d business days, q %s" % (dow, r, ">= 1" if sg > 0 else "<= -1"), got, "%d+7*q" % exp))
+    except NotConst as e:
+        raise AnalysisBroken("%s: __get_d_equiv is not decodable as quotient / remainder form any more (%s)" % (rule, e))
+    if not bad:
+        R.ob(rule, "__get_d_equiv: for every start weekday and every count (7 x (9 remainders + 2 x 5 rays)) the closed form is the distance "
+             "to the n-th Monday-Friday day strictly after / before", True, sample={"rule": rule, "function": "__get_d_equiv", "cases": n})
+    else:
+        R.finding(rule, fd, "__get_d_equiv as remainder table + 7 per 5", "%d of %d cases differ from the definition; first: %s gives %s, the "
+                  "definition %s" % (len(bad), n, bad[0][0], bad[0][1], bad[0][2]))
+    # calendar days -> business days
+    def call_nw(dur, wd):
+        return fold.Folder(fw).run([dur, wd])
+    pos, neg_t, neg_m = [], [], []
+    m = 0
+    try:
+        for wd in range(1, 8):
+            for dur in range(-6, 7):
+                got = fold.Folder(fb, calls={"__get_nwedays": call_nw}).run([dur, wd])
+                m += 1
+                what = "%+d days, target weekday %d" % (dur, wd)
+                if dur >= 0:
+                    if got != _count_target_closed(dur, wd):
+                        pos.append((what, got, _count_target_closed(dur, wd)))
+                else:
+                    if got != _count_target_closed(dur, wd):
+                        neg_t.append((what, got, _count_target_closed(dur, wd)))
+                    if got != _count_mirrored(dur, wd):
+                        neg_m.append((what, got, _count_mirrored(dur, wd)))
+            for sg in (1, -1):
+                for r in (range(0, 7) if sg > 0 else range(-6, 1)):
+                    got = fold.Folder(fb, calls={"__get_nwedays": call_nw}).run([Aff(r, 7, sg), wd])
+                    m += 1
+                    what = "7q%+d days, q %s, target weekday %d" % (r, ">= 1" if sg > 0 else "<= -1", wd)
+                    for oracle, sink in ((_count_target_closed, pos if sg > 0 else neg_t), (_count_mirrored, None if sg > 0 else neg_m)):
+                        if sink is None:
+                            continue
+                        exp = oracle(r + 7 * sg, wd) - 5 * sg
+                        if not isinstance(got, Aff) or got.k != 5 or got.c != exp:
+                            sink.append((what, got, "%d+5*q" % exp))
+    except NotConst as e:
+        raise AnalysisBroken("%s: __get_nbdays / __get_nwedays are not decodable as quotient / remainder form any more (%s)" % (rule, e))
+    n += m
+    if not pos:
+        R.ob(rule, "__get_nbdays: for every target weekday and every non-negative distance the closed form counts the Monday-Friday days "
+             "in (start, target]", True, sample={"rule": rule, "function": "__get_nbdays", "cases": m})
+    else:
+        R.finding(rule, fb, "__get_nbdays, non-negative distances", "%d cases differ from the number of Monday-Friday days in (start, target]; "
+                  "first: %s gives %s, the definition %s" % (len(pos), pos[0][0], pos[0][1], pos[0][2]))
+    if not neg_t:
+        R.ob(rule, "__get_nbdays: for every target weekday and every negative distance the closed form counts the Monday-Friday days in "
+             "[target, start)", True)
+    elif not neg_m:
+        # exactly the mirrored convention: one specific, recognisable deviation
+        R.finding(rule, fb, "__get_nbdays, negative distances: counts (target, start] instead of [target, start)",
+                  "for a negative distance the closed form counts the Monday-Friday days of (target, start]: closed at the start, open at "
+                  "the target.  The count that inverts the addition is that of [target, start): `ddiff 2012-05-13 2012-05-11 -f %%db` gives "
+                  "0b although `dadd 2012-05-13 -1b` is 2012-05-11; %d of the decoded cases differ, first: %s gives %s, [target, start) has %s"
+                  % (len(neg_t), neg_t[0][0], neg_t[0][1], neg_t[0][2]))
+    else:
+        R.finding(rule, fb, "__get_nbdays, negative distances", "%d cases agree with neither [target, start) nor the mirrored (target, start]; "
+                  "first: %s gives %s, [target, start) has %s" % (len(neg_m), neg_m[0][0], neg_m[0][1], neg_m[0][2]))
+    R.floor(rule, "decoded cases of the business-day closed forms", n, 300)
+
+
 def check(P, R, tier):
     tu = P.tu("libdut_a-date-core.o")
     nmod = ncov = 0
@@ -119,6 +250,16 @@ def check(P, R, tier):
                         week[name] = (const_of(q["c"][1]), const_of(b))
     R.floor("RF14-negmod", "residue remainders in the business-day closed forms", nmod, 3)
     R.floor("RF1-cover", "weekday switches", ncov, 1)
+    try:
+        check_periodic(P, R, tu)
+    except AnalysisBroken as e:
+        # a form that cannot be decoded is `undecided`, but it must not hide violations the other rules have already found
+        if not R.findings:
+            raise
+        R.notes.append(str(e))
+    import fresh
+    nfr = fresh.check_unit(R, tu, "RF-fresh", only_file="bizda.c")
+    R.floor("RF-fresh", "uses of looked-up period lengths in the business-day code", nfr, 10)
     # the business days of a month: a 4 x 7 table spelled as a closed form
     import lentab
     nb = lentab.check(P, R, tu, {"bdays"}, rule="RF2-closed")
@@ -133,9 +274,12 @@ def check(P, R, tier):
                   "a week has 5 business days in 7 days" % (d[0], d[1], b[0], b[1]))
 
 
-LEVEL = ("Decides three structural necessary conditions of the business-day closed forms only: residue remainders are taken from "
-         "non-negative operands (interval analysis), the weekday switches cover their operand's range, and both directions use 5 "
-         "business days per 7 days.  That the closed forms count Monday-Friday days exactly for every weekday and count is NOT "
-         "decided.")
-RULE = "obligation = one residue remainder, one weekday switch, the week factor pair"
+LEVEL = ("Decides the two closed forms the property is about for ALL counts by decoding them with the week quotient kept symbolic "
+         "(RF2-period): __get_d_equiv is the distance to the n-th Monday-Friday day strictly after / before for every weekday and "
+         "every non-zero count; __get_nbdays counts the Monday-Friday days of the half-open interval for non-negative distances "
+         "(negative ones: known finding, the mirrored interval is pinned by tests); the business days of a month as a 4 x 7 table "
+         "(RF2-closed); plus three structural conditions (residue remainders from non-negative operands, weekday switch coverage, 5 "
+         "per 7 both ways) and freshness of looked-up month lengths.  NOT decided: __get_b_equiv, the bizda <-> ymd conversions and "
+         "yearly tables, the per-calendar call sites, 32-bit overflow of huge counts.")
+RULE = "obligation = one residue remainder, one weekday switch, the week factor pair, one decoded closed form (all its cases), one use of a looked-up length"
 ASSUME = ["weekdays handed to the closed forms are 1..7 (entry contract of the analysis)"]
